@@ -15,3 +15,7 @@ pub mod lexical;
 
 // 转换 //
 pub mod conversion;
+
+// 验证钩子（仅在`verif_hooks`特性启用时编译） //
+#[cfg(feature = "verif_hooks")]
+pub mod verif_hooks;
